@@ -2,6 +2,7 @@ package interpreter
 
 import (
 	"github.com/krotik/ecal/engine"
+	"github.com/krotik/ecal/parser"
 	zz "github.com/krotik/ecal/zzverif"
 )
 
@@ -70,6 +71,7 @@ func VerifC06Builtins() {
 		zz.Assume(argc == fixed)
 	}
 	vs := zzScope()
+	pre := ""
 	src := c06Builtins[f] + "("
 	for i := 0; i < argc; i++ {
 		k := zz.Choice("k"+c06ArgNames[i], zzKinds)
@@ -77,11 +79,51 @@ func VerifC06Builtins() {
 		if i > 0 {
 			src += ", "
 		}
-		src += c06ArgNames[i]
+		// FORMS=1: the argument is written as an identifier, an index access, a map access or a call returning the value
+		form := 0
+		if zz.Param("FORMS", 0) == 1 {
+			form = zz.Choice("form"+c06ArgNames[i], 4)
+		}
+		switch form {
+		case 0:
+			src += c06ArgNames[i]
+		case 1:
+			vs.SetValue("w"+c06ArgNames[i], []interface{}{zzValueOf(vs, c06ArgNames[i])})
+			src += "w" + c06ArgNames[i] + "[0]"
+		case 2:
+			vs.SetValue("m"+c06ArgNames[i], map[interface{}]interface{}{"k": zzValueOf(vs, c06ArgNames[i])})
+			src += "m" + c06ArgNames[i] + ".k"
+		case 3:
+			pre += "func g" + c06ArgNames[i] + "() {\n return " + c06ArgNames[i] + "\n}\n"
+			src += "g" + c06ArgNames[i] + "()"
+		}
 	}
 	src += ")"
 	zz.Reach("before-eval")
-	zzRun(erp, src, vs)
+	zzRun(erp, pre+src, vs)
+	zz.Reach("after-eval")
+}
+
+func zzValueOf(vs parser.Scope, name string) interface{} {
+	v, _, _ := vs.GetValue(name)
+	return v
+}
+
+var c06CycleMakers = []string{"c := [1, 2]\nc[0] := c", "c := {\"k\" : 1}\nc.k := c", "c := [[1]]\nc[0][0] := c", "c := [1]\nd := {\"k\" : c}\nc[0] := d"}
+var c06CycleUsers = []string{"log(c)", "r := c == c", "r := \"{{c}}\"", "r := len(c)", "r := c in [c]", "r := concat(c, c)", "r := type(c)", "for x in c {\n r := x\n}", "r := c[0]", "error(c)", "raise(\"T\", \"d\", c)", "r := c != [1]"}
+
+// VerifC06Cycles: a container that contains itself (directly, nested, or through a second container - reachable with
+// plain assignments, no recursion written by the user) handed to every consumer of values: logging, comparison,
+// interpolation, built-ins, loops, error data: a value or an error, never a panic or a stack overflow of the host.
+func VerifC06Cycles() {
+	erp, _ := zzProvider()
+	vs := zzScope()
+	mk := zz.Choice("maker", len(c06CycleMakers))
+	us := zz.Choice("user", len(c06CycleUsers))
+	// listed known finding: consumers that render the value as text (log, error, interpolation, type) recurse without end
+	zz.Known("C06-self-referential-container-rendered-as-text-overflows-the-stack", "call depth", us == 0 || us == 2 || us == 6 || us == 9)
+	zz.Reach("before-eval")
+	zzRun(erp, c06CycleMakers[mk]+"\n"+c06CycleUsers[us], vs)
 	zz.Reach("after-eval")
 }
 
